@@ -27,10 +27,13 @@ Record flags := mkflags {
   f_row_len_cols : bool;   (* getitem_row_nonsquare: A[i], A[i,b] build the canonical vector with length shape[-1] *)
   f_list_dotA : bool;      (* getitem_list_uses_dotA: A[[..],[..]] multiplies self.A instead of self *)
   f_arr_cpu : bool;        (* sliced_index_array_cpu: Sliced calls .cpu() on index arrays (numpy >= 2 arrays have .device) *)
-  f_list_empty_err : bool  (* getitem_empty_lists: stack([]) raises ValueError for A[[],[]] *)
+  f_list_empty_err : bool; (* getitem_empty_lists: stack([]) raises ValueError for A[[],[]] *)
+  f_T_self : bool          (* not a defect flag but a fact read off the implementation per operator: `self.T is self`
+                              (cola.fns.transpose returns the operator itself when it isa(SelfAdjoint) and is real).
+                              Right when the annotation is true; a wrongly inferred annotation makes A[i] a column. *)
 }.
-Definition pinned : flags := mkflags true true true true.
-Definition repaired : flags := mkflags false false false false.
+Definition pinned : flags := mkflags true true true true false.
+Definition repaired : flags := mkflags false false false false false.
 
 Definition full : pslice := mkslice None None None.
 (* numpy's rule for one integer index on an axis of length n *)
@@ -63,7 +66,7 @@ Definition row_of (fl : flags) (e : op) (i : Z) : err + list R :=
   let len := if f_row_len_cols fl then snd (shape e) else fst (shape e) in
   match canonical i len with
   | None => inl EIndex
-  | Some ei => match matvec (Transp e) ei with None => inl EAssert | Some v => inr v end
+  | Some ei => match matvec (if f_T_self fl then e else Transp e) ei with None => inl EAssert | Some v => inr v end
   end.
 (* self @ e_j *)
 Definition col_of (e : op) (j : Z) : err + list R :=
